@@ -467,6 +467,14 @@ func OkDominates(fn *ssa.Function, c ssa.Instruction, target ssa.Instruction) (b
 	if !DominatedBy(fn, target, []Site{{fn, c}}, nil) {
 		return false, "a path reaches the site without passing the call"
 	}
+	// the target is a return that hands the call's own error back (possibly through a transparent helper's return): it is
+	// a success return exactly when the call succeeded
+	if r, ok := target.(*ssa.Return); ok && len(r.Results) > 0 {
+		last := r.Results[len(r.Results)-1]
+		if isErrorType(last.Type()) && errorOfCall(last, cv, 0) {
+			return true, ""
+		}
+	}
 	nilEdges, _ := ErrCheckEdges(fn, cv)
 	if len(nilEdges) == 0 {
 		return false, "the call's error result is never compared with nil"
@@ -931,4 +939,61 @@ func prunedSucc(cond ssa.Value, call *ssa.Call, vals []int8) int {
 		return 1 // condition true: the else successor is impossible
 	}
 	return 0
+}
+
+// errorOfCall: v is the error produced by call c and nothing else: c's error result itself, or the error result of a call
+// to a transparent helper all of whose returns hand back c's error or were reached under c's err == nil.
+func errorOfCall(v ssa.Value, c ssa.Value, depth int) bool {
+	if depth > maxInlineDepth {
+		return false
+	}
+	v = unwrap(v)
+	if srcs := resolveLocal(v); len(srcs) == 1 {
+		v = unwrap(srcs[0])
+	}
+	if e, ok := v.(*ssa.Extract); ok && e.Tuple == c && isErrorType(e.Type()) {
+		return true
+	}
+	if v == c && isErrorType(v.Type()) {
+		return true
+	}
+	// result of a transparent helper
+	var call *ssa.Call
+	idx := 0
+	switch x := v.(type) {
+	case *ssa.Extract:
+		call, _ = x.Tuple.(*ssa.Call)
+		idx = x.Index
+	case *ssa.Call:
+		call = x
+	}
+	if call == nil {
+		return false
+	}
+	g := TransparentCallee(call)
+	if g == nil {
+		return false
+	}
+	ci, ok := c.(ssa.Instruction)
+	if !ok || ci.Parent() != g {
+		return false
+	}
+	for _, r := range returnsOf(g) {
+		if idx >= len(r.Results) {
+			return false
+		}
+		rv := r.Results[idx]
+		if errorOfCall(rv, c, depth+1) {
+			continue
+		}
+		// another exit of the helper: acceptable when it is a failing exit, or reached only after c returned nil
+		if !IsNilConst(unwrap(rv)) && provablyNonNilAt(g, rv, r) {
+			continue // a failing exit
+		}
+		if ok, _ := OkDominates(g, ci, r); ok {
+			continue
+		}
+		return false
+	}
+	return true
 }
